@@ -48,7 +48,7 @@ def spell(mentions):
             s += ('#' if n == 'id' else '.') + v
         elif k == 'mshort':
             flush()
-            s += '..' + v
+            s += ('##' if n == 'id' else '..') + v
         else:
             if k == 'raw':
                 group.append('%s=%s' % (n, v))
@@ -206,11 +206,12 @@ NAMES = ['k', 'data-a', 'title', 'm:n', 'disabled', 'class', 'id', 'for', 'check
 
 def rand_mentions(rng, syntax, q):
     ms = []
-    if syntax in ('jsx', 'vue') and rng.random() < 0.15:
-        ms.append({'k': 'mshort', 'n': 'class', 'v': rng.choice(['foo', 'bar1', 'x_y'])})
-        names = [n for n in NAMES if n != 'class']
-    else:
-        names = NAMES
+    names = NAMES
+    if rng.random() < (0.15 if syntax in ('jsx', 'vue') else 0.08):
+        # doubled shorthand (`..foo`, `##a`): the name is looked up under `name*` first, then under the plain name
+        n = 'class' if rng.random() < 0.75 else 'id'
+        ms.append({'k': 'mshort', 'n': n, 'v': rng.choice(['foo', 'bar1', 'x_y'])})
+        names = [x for x in NAMES if x != n]
     count = rng.randint(1, 10) if rng.random() < 0.9 else rng.randint(11, 40)
     if count > 10:
         # wide elements: many DISTINCT names (thresholds of lookup structures), later ones repeated
@@ -264,6 +265,10 @@ def run_shard(desc, ctx):
             opts = dict(rng.choice(OPTION_TUPLES))
             if rng.random() < 0.2:
                 opts['markup.attributes'] = {'title': 'data-title', 'k': 'K2'}
+            elif rng.random() < 0.2:
+                # user tables with any mix of plain and starred keys
+                opts['markup.attributes'] = {k: v for k, v in [('class', 'className'), ('class*', 'styleName'), ('id', 'key'), ('id*', 'keys'), ('for', 'htmlFor'),
+                                                                ('title', 'tt'), ('data-a', 'dataA')] if rng.random() < 0.4}
             q = "'" if opts['output.attributeQuotes'] == 'single' else '"'
             mon.check(rand_mentions(rng, syntax, q), syntax, opts, 'random')
     finally:
